@@ -100,8 +100,9 @@ def unwrapEnvelopeType (t : Ty) : Outcome Ty :=
   | .panic s => .panic s
 
 mutual
-/-- `AssignmentValue.AsIR` -/
-def VValue.asIR (ss : Schemas) (path : Path) : VValue → Outcome AValue
+/-- `AssignmentValue.AsIR` as it was before /repo b52532c: the rule's own `*Argument` is handed to
+    every option the rule is applied to -/
+def VValue.asIRPreFix (ss : Schemas) (path : Path) : VValue → Outcome AValue
   | .mk (some c) _ _ _ => .ok (.arg c)
   | .mk none constant he env =>
     if !isNil constant then .ok (.const constant)
@@ -111,7 +112,7 @@ def VValue.asIR (ss : Schemas) (path : Path) : VValue → Outcome AValue
       | some last =>
         match unwrapEnvelopeType last.ty with
         | .ok et =>
-          match asIREnv ss et env with
+          match asIREnvPreFix ss et env with
           | .ok vs => .ok (.env et vs)
           | .err e => .err e
           | .panic s => .panic s
@@ -119,7 +120,7 @@ def VValue.asIR (ss : Schemas) (path : Path) : VValue → Outcome AValue
         | .panic s => .panic s
     else .err "empty assignment value"
 /-- `AssignmentEnvelope.AsIR` / `EnvelopeFieldValue.AsIR` -/
-def asIREnv (ss : Schemas) (et : Ty) : List (VEnvFieldOf VValue) → Outcome (List EnvField)
+def asIREnvPreFix (ss : Schemas) (et : Ty) : List (VEnvFieldOf VValue) → Outcome (List EnvField)
   | [] => .ok []
   | e :: es =>
     match resolveO ss (fuelFor ss) et with
@@ -129,9 +130,9 @@ def asIREnv (ss : Schemas) (et : Ty) : List (VEnvFieldOf VValue) → Outcome (Li
         match fieldByName fs e.field with
         | none => .err "envelope field not found"
         | some f =>
-          match VValue.asIR ss (pathFromStructField f) e.value with
+          match VValue.asIRPreFix ss (pathFromStructField f) e.value with
           | .ok v =>
-            match asIREnv ss et es with
+            match asIREnvPreFix ss et es with
             | .ok rest => .ok ({ path := pathFromStructField f, value := v } :: rest)
             | .err x => .err x
             | .panic s => .panic s
@@ -142,6 +143,14 @@ def asIREnv (ss : Schemas) (et : Ty) : List (VEnvFieldOf VValue) → Outcome (Li
     | .err x => .err x
     | .panic s => .panic s
 end
+
+/-- `AssignmentValue.AsIR` (since /repo b52532c): every application gets its own copy of what the
+    rule holds (`irValue.DeepCopy()`, at every envelope level): new pointees -/
+def VValue.asIR (ss : Schemas) (path : Path) (v : VValue) : Outcome AValue :=
+  match v.asIRPreFix ss path with
+  | .ok a => .ok (a.mapCells zeroCell)
+  | .err e => .err e
+  | .panic s => .panic s
 
 /-- `veneers.Assignment.AsIR` -/
 def VAssignment.asIR (ss : Schemas) (bs : Builders) (root : Builder) (va : VAssignment) : Outcome Assignment :=
@@ -169,7 +178,8 @@ def asIRAssignments (ss : Schemas) (bs : Builders) (root : Builder) : List VAssi
 /-- `veneers.Option.AsIR` -/
 def VOption.asIR (ss : Schemas) (bs : Builders) (root : Builder) (vo : VOption) : Outcome Opt :=
   match asIRAssignments ss bs root vo.assignments with
-  | .ok as => .ok { name := vo.name, comments := vo.comments, args := vo.arguments, argsId := vo.argsId, assignments := as }
+  -- since /repo b52532c the arguments are copied (`Argument.DeepCopy`) into a new slice: a new `Args` array
+  | .ok as => .ok { name := vo.name, comments := vo.comments, args := vo.arguments, argsId := 0, assignments := as }
   | .err e => .err e
   | .panic s => .panic s
 
